@@ -119,3 +119,39 @@ pub fn from_cfb_glue_wiring_min() {
     let cfb = img::image_model_min(&x, &y, &junk);
     check_project(cfb, &x, &y);
 }
+
+/// closure only: Cfb::get_stream, decompress_stream and the dir-stream parsers all modelled; 3 streams, no decoys
+#[kani::proof]
+#[kani::unwind(4)]
+#[kani::stub(read_dir_information, read_dir_information_model)]
+#[kani::stub(Reference::from_stream, references_model)]
+#[kani::stub(read_modules, read_modules_model)]
+#[kani::stub(codepage::to_encoding, img::to_encoding_1252_stub)]
+#[kani::stub(crate::cfb::decompress_stream, img::decompress_model)]
+#[kani::stub(crate::cfb::Cfb::get_stream, img::get_stream_model)]
+pub fn from_cfb_closure_min() {
+    let x: [u8; 3] = kani::any();
+    let y: [u8; 2] = kani::any();
+    let junk: [u8; 3] = kani::any();
+    kani::cover!(x[0] != y[0] && junk[0] == 0x01);
+    let cfb = img::image_model_min(&x, &y, &junk);
+    check_project(cfb, &x, &y);
+}
+
+/// closure only, decoy streams "A"/"B" and the root entry present (6 directory entries)
+#[kani::proof]
+#[kani::unwind(7)]
+#[kani::stub(read_dir_information, read_dir_information_model)]
+#[kani::stub(Reference::from_stream, references_model)]
+#[kani::stub(read_modules, read_modules_model)]
+#[kani::stub(codepage::to_encoding, img::to_encoding_1252_stub)]
+#[kani::stub(crate::cfb::decompress_stream, img::decompress_model)]
+#[kani::stub(crate::cfb::Cfb::get_stream, img::get_stream_model)]
+pub fn from_cfb_closure_decoys() {
+    let x: [u8; 3] = kani::any();
+    let y: [u8; 2] = kani::any();
+    let junk: [u8; 3] = kani::any();
+    kani::cover!(x[0] != y[0] && junk[0] == 0x01);
+    let cfb = img::image_model(&x, &y, &junk, true);
+    check_project(cfb, &x, &y);
+}
